@@ -127,3 +127,47 @@ PROPERTIES["C07"] = {
          "encoded": _C07_ENC},
     ],
 }
+
+_LS_SOLVERS = ["gd", "cgd-n", "cgd-hs", "cgd-fr", "cgd-pr", "cgd-cd", "cgd-ls", "cgd-dy", "cgd-dycd", "cgd-dyhs", "cgd-frpr", "lbfgs", "dfp", "sr1", "bfgs", "hoshino", "fletcher"]
+_NLS_SOLVERS = ["sgm", "ellipsoid", "sda", "wda", "cocob", "asga2", "asga4", "fgm", "dgm", "pgm", "osga"]
+_SOLVER_ENC = ["nano::solver_t::minimize", "nano::solver_t::done", "nano::solver_<id>_t::do_minimize (every configured id)",
+               "nano::solver_state_t::{ctor, update, update_if_better, update_calls, gradient_test, value_test, valid, has_descent}",
+               "direction code: L-BFGS two-loop recursion, CG betas and restarts, quasi-Newton H updates"]
+PROPERTIES["C01"] = {
+    "level": "other",
+    "level_text": "bounded symbolic verification of the truthfulness clause: for every line-search solver, every function (oracle), every start, every epsilon in (0,0.1] and EVERY behaviour of the line-search (replaced by an arbitrary move + arbitrary verdict), a `converged` status implies the independently recomputed gradient criterion at the returned point; all paths of the real outer loops within max_evals=10 are explored",
+    "level_note": SRE_NOTE + "; lsearch_t::get replaced by an over-approximating stub (state updated at arbitrary fresh points, arbitrary boolean returned)",
+    "technique": SRE_TECH,
+    "explanation": "C01 (second sentence): real solver_t::minimize -> do_minimize of the 17 line-search solvers on an oracle function; `converged` => max|g_i| < eps*max(1,|f|) recomputed from the oracle's log at the returned point; reported value/gradient are the oracle's answers there.",
+    "assumptions": SRE_ASSUME + ["oracle function (fresh symbolic value/gradient per evaluation, functionally consistent)", "line-search = arbitrary move stub (lsevals evaluations per call)"],
+    "bounds": {"dims": "1..2", "max_evals": "10 (domain minimum) => <= 4 outer iterations", "epsilon": "(0, 0.1)"},
+    "outside": ["first sentence of C01: convergence of L-BFGS/BFGS within 1500 evaluations and the distance bound on all well-conditioned quadratics (needs hundreds of floating-point iterations; not decidable by bounded symbolic execution over the reals)"],
+    "units": [
+        {"engine": "sre", "harness": "C01_solver", "sources": ["C01_solver.cpp"],
+         "quick": ["solver=%s;d=1" % s for s in _LS_SOLVERS] + ["solver=lbfgs;d=2;lsevals=2", "solver=bfgs;d=2;lsevals=2", "solver=gd;d=2", "solver=cgd-pr;d=1;inf=1", "solver=lbfgs;d=1;inf=2"],
+         "thorough": ["solver=%s;d=%d;lsevals=%d" % (s, d, k) for s in _LS_SOLVERS for (d, k) in ((1, 1), (2, 2), (1, 2))] +
+                     ["solver=%s;d=1;inf=%d" % (s, i) for s in ("gd", "cgd-pr", "lbfgs", "bfgs") for i in (1, 2)] + ["solver=lbfgs;d=1;hist=1", "solver=lbfgs;d=2;evals=14;lsevals=2"],
+         "budget": {"quick": {"deadline_s": 60, "max_paths": 5000}, "thorough": {"deadline_s": 600, "max_paths": 200000}},
+         "encoded": _SOLVER_ENC},
+    ],
+}
+PROPERTIES["C02"] = {
+    "level": "other",
+    "level_text": "bounded symbolic verification: for every registered solver that the engine can carry (see bounds), every function (oracle) and start, on every explored path of the real minimize(): the returned point was evaluated, the reported value (and gradient for line-search solvers) equals the function's answer there, the status is legal, reported evaluation counts do not exceed the evaluations performed, non-failed results are finite, and the evaluation budget is respected",
+    "level_note": SRE_NOTE + "; line-search solvers use the arbitrary-move line-search stub of C01; other solvers run entirely real code",
+    "technique": SRE_TECH,
+    "explanation": "C02: real solver_t::minimize of line-search and non-line-search solvers on an oracle function with max_evals at the domain minimum.",
+    "assumptions": SRE_ASSUME + ["oracle function (fresh symbolic value/gradient per evaluation, functionally consistent); convex flag set for solvers that require it"],
+    "bounds": {"dims": "1..2", "max_evals": "10..14", "path budget": "exploration of solvers with deep inner loops (asga*, fgm/dgm/pgm, osga) is truncated by the path/time budget; coverage counts are in the units list"},
+    "outside": ["termination and budget overshoot beyond the explored depth", "monotonicity clause (value not larger than the start value): not asserted for oracle functions",
+                "gradient-sampling solvers (gs, ags, gs-lbfgs, ags-lbfgs) and bundle solvers (rqb, fpba1, fpba2): their inner QP solves on symbolic data exceed the solver budget (measured: 0 complete paths in 25 s) - not covered",
+                "penalty and augmented-Lagrangian solvers: see C05"],
+    "units": [
+        {"engine": "sre", "harness": "C01_solver", "sources": ["C01_solver.cpp"],
+         "quick": ["solver=%s;d=1;conv=1" % s for s in ("sgm", "ellipsoid", "sda", "wda", "cocob")] + ["solver=gd;d=2;lsevals=2", "solver=lbfgs;d=1", "solver=bfgs;d=1;inf=1", "solver=ellipsoid;d=2;conv=1", "solver=sgm;d=2;conv=1;smooth=0"],
+         "thorough": ["solver=%s;d=1;conv=1" % s for s in _NLS_SOLVERS] + ["solver=%s;d=2;conv=1;smooth=0" % s for s in ("sgm", "ellipsoid", "sda", "wda", "cocob")] +
+                     ["solver=%s;d=1" % s for s in _LS_SOLVERS] + ["solver=ellipsoid;d=1;conv=1;inf=1", "solver=sgm;d=1;conv=1;inf=2", "solver=cocob;d=1;conv=1;evals=14"],
+         "budget": {"quick": {"deadline_s": 60, "max_paths": 3000}, "thorough": {"deadline_s": 300, "max_paths": 50000}},
+         "encoded": _SOLVER_ENC},
+    ],
+}
